@@ -266,6 +266,16 @@ def verify_hyperparameters(num_input_dims=None,
                        "len(monotonicities): %d, num_input_dims: %d" %
                        (monotonicities, len(monotonicities), num_input_dims))
 
+  if num_input_dims is not None:
+    if input_min is not None and len(input_min) != num_input_dims:
+      raise ValueError("Number of elements in 'input_min' must be equal to "
+                       "num_input_dims. input_min: %s, num_input_dims: %d" %
+                       (input_min, num_input_dims))
+    if input_max is not None and len(input_max) != num_input_dims:
+      raise ValueError("Number of elements in 'input_max' must be equal to "
+                       "num_input_dims. input_max: %s, num_input_dims: %d" %
+                       (input_max, num_input_dims))
+
   if weights_shape is not None:
     if len(weights_shape) != 2:
       raise ValueError("Expect weights to be a rank 2 tensor. Weights shape: "
